@@ -50,3 +50,28 @@ def run(ctx):
         n += eng.evaluate_entry(ctx, "T5-range-guard", e, lambda t, ints=ints: t[0] == "param" and t[1] in ints)
     ctx.floor("parameter-origin panic sites in the query scope", n, 20)
     ctx.notes.append("T5 engine stats: %s" % eng.stats)
+
+
+def sweep(ctx):
+    """informational (thorough tier): the same range-guard template over every public function of the crate that takes an
+    integer argument - i.e. which public functions have argument preconditions (may panic for some integer arguments).
+    Never alarming: most of these are documented `_unchecked` / builder functions with asserts."""
+    from .. import report
+    eng = T5(ctx.facts)
+    per_fn = {}
+    for d, b in sorted(ctx.facts.bodies.items()):
+        if b.f["def_kind"] == "Closure" or "Public" not in b.f.get("vis", "") or "property_based_tests" in d:
+            continue
+        ints = {i for i in range(1, b.argc + 1) if b.local_ty(i) in INT_TYS}
+        if not ints:
+            continue
+        sub = report.Ctx("SWEEP", ctx.facts)
+        try:
+            eng.evaluate_entry(sub, "sweep", d, lambda t, ints=ints: t[0] == "param" and t[1] in ints, report_invariant=False, deep=False)
+        except Exception:
+            continue
+        v = [o["site"][:80] for o in sub.obs if o["status"] == "violation"]
+        if v:
+            per_fn[d] = v
+    ctx.sweep.append({"template": "T5 range-guard over all public functions with integer parameters", "functions_with_argument_preconditions": len(per_fn),
+                      "sites": sum(len(v) for v in per_fn.values()), "per_function": {k: v[:3] for k, v in sorted(per_fn.items())}})
